@@ -8,3 +8,4 @@ import QV.Generated.Validation
 import QV.Properties.C06
 import QV.Properties.C20
 import QV.Properties.C21
+import QV.Properties.C22
